@@ -210,10 +210,11 @@ def other_requests(api, opts, work):
 
 def run_warm(args):
     """one process that generates the requests in `paths` in order; returns the LAST response."""
-    paths, seed = args
+    paths, seed = args[:2]
+    cwd = args[2] if len(args) > 2 else None
     e = dict(os.environ); e['PYTHONHASHSEED'] = seed; e.pop(gen.GUARD, None)
     import subprocess
-    r = subprocess.run([gen.PY, '-W', 'ignore', '-c', WARM] + paths, capture_output=True, env=e, timeout=1800)
+    r = subprocess.run([gen.PY, '-W', 'ignore', '-c', WARM] + paths, capture_output=True, env=e, cwd=cwd, timeout=1800)
     return r.returncode, hashlib.sha256(r.stdout).hexdigest(), r.stderr.decode('utf-8', 'replace')[-400:], {}, r.stdout
 
 
@@ -257,7 +258,7 @@ def main(chk, args):
                 paths.append(os.path.join(wdir, f'req{k}.bin'))
                 with open(paths[-1], 'wb') as f:
                     f.write(rb)
-            warm = ([([paths[0], paths[-1]], seeds[0]), ([paths[1], paths[-1]], seeds[1]), ([paths[-1], paths[-1]], seeds[-1])]
+            warm = ([([paths[0], paths[-1]], seeds[0], cwd1), ([paths[1], paths[-1]], seeds[1], cwd2), ([paths[-1], paths[-1]], seeds[-1], cwd1)]
                     if name.startswith('stress') or not quick else [])
             with ThreadPoolExecutor(8) as ex:
                 fw = [ex.submit(run_warm, w) for w in warm]
